@@ -167,3 +167,48 @@ Proof.
   destruct (run_frames step (steady g k z X c1) (map (cexp X z) (seq 0 N))) as [s ys]. cbn [fst snd] in *.
   subst. reflexivity.
 Qed.
+
+(** * the real-number instance: response to a sinusoid Re (X z^n) *)
+Lemma run_estep_filter : forall (F : Type) (OPS : Ops F) (K : consts F) m (a1 a2 a3 k mix : F) xs s,
+    run_frames (estep K (EFilter m a1 a2 a3 k mix)) (SSvf s) xs =
+    (SSvf (fst (run_frames (filter_step m a1 a2 a3 k mix) s xs)),
+     snd (run_frames (filter_step m a1 a2 a3 k mix) s xs)).
+Proof.
+  intros F OPS K m a1 a2 a3 k mix. induction xs as [|x xs IH]; intros s; [reflexivity|].
+  cbn [run_frames estep]. destruct (filter_step m a1 a2 a3 k mix s x) as [s1 y].
+  rewrite IH. destruct (run_frames (filter_step m a1 a2 a3 k mix) s1 xs) as [s2 ys]. reflexivity.
+Qed.
+Lemma run_estep_eq : forall (F : Type) (OPS : Ops F) (K : consts F) (a1 a2 a3 m0 m1 m2 : F) xs s,
+    run_frames (estep K (EEq a1 a2 a3 m0 m1 m2)) (SSvf s) xs =
+    (SSvf (fst (run_frames (eq_step a1 a2 a3 m0 m1 m2) s xs)),
+     snd (run_frames (eq_step a1 a2 a3 m0 m1 m2) s xs)).
+Proof.
+  intros F OPS K a1 a2 a3 m0 m1 m2. induction xs as [|x xs IH]; intros s; [reflexivity|].
+  cbn [run_frames estep]. destruct (eq_step a1 a2 a3 m0 m1 m2 s x) as [s1 y].
+  rewrite IH. destruct (run_frames (eq_step a1 a2 a3 m0 m1 m2) s1 xs) as [s2 ys]. reflexivity.
+Qed.
+
+Definition reS := prS Re.
+
+Theorem filter_sinusoid_R : forall m g k mix z X N,
+    (1 + g * (g + k) <> 0)%R -> svfD g k z <> RtoC 0 ->
+    snd (run_frames (estep consts_R (EFilter m (svf_a1 g k) (svf_a2 g k) (svf_a3 g k) k mix))
+                    (SSvf (reS (steady g k z X c1)))
+                    (map (fun n => reF (cexp X z n)) (seq 0 N))) =
+    map (fun n => reF (cscale X (with_mix (H_svf_poly m g k z) mix * Cpow z n))) (seq 0 N).
+Proof.
+  intros m g k mix z X N Hden HD. rewrite run_estep_filter. cbn [snd].
+  pose proof (filter_transfer_C m g k mix z X N Hden HD) as HC. cbn zeta in HC.
+  pose proof (run_pr Re
+                     (filter_step m (RtoC (svf_a1 g k)) (RtoC (svf_a2 g k)) (RtoC (svf_a3 g k)) (RtoC k) (RtoC mix))
+                     (filter_step m (svf_a1 g k) (svf_a2 g k) (svf_a3 g k) k mix) (prS Re)) as HP.
+  assert (Hs : forall s x,
+             prS Re (fst (filter_step m (RtoC (svf_a1 g k)) (RtoC (svf_a2 g k)) (RtoC (svf_a3 g k)) (RtoC k) (RtoC mix) s x)) =
+             fst (filter_step m (svf_a1 g k) (svf_a2 g k) (svf_a3 g k) k mix (prS Re s) (prF Re x)) /\
+             prF Re (snd (filter_step m (RtoC (svf_a1 g k)) (RtoC (svf_a2 g k)) (RtoC (svf_a3 g k)) (RtoC k) (RtoC mix) s x)) =
+             snd (filter_step m (svf_a1 g k) (svf_a2 g k) (svf_a3 g k) k mix (prS Re s) (prF Re x))).
+  { intros s x. apply (filter_step_pr Re Re_plus Re_minus Re_scal). }
+  destruct (HP Hs (map (cexp X z) (seq 0 N)) (steady g k z X c1)) as [_ H2].
+  rewrite HC in H2. cbn [snd] in H2. rewrite !map_map in H2. unfold reS, reF.
+  symmetry. exact H2.
+Qed.
